@@ -111,19 +111,23 @@ def materialise(x):
 
 
 def view(arr, sels):
-    """xt::view(arr, sel...): sel is an int (fixed index) or 'all'"""
+    """xt::view(arr, sel...): sel is an int (fixed index), 'all' or ('range', lo, hi)"""
     if len(sels) != len(arr.shape):
         raise AnalysisBroken("ndsym: view with %d selectors on %d-d array" % (len(sels), len(arr.shape)))
-    free = [k for k, s in enumerate(sels) if s == "all"]
+    sels = [("range", 0, arr.shape[k]) if s == "all" else s for k, s in enumerate(sels)]
+    free = [k for k, s in enumerate(sels) if isinstance(s, tuple)]
     for k, s in enumerate(sels):
-        if s != "all" and (not isinstance(s, int) or s < 0 or s >= arr.shape[k]):
+        if isinstance(s, tuple):
+            if not (isinstance(s[1], int) and isinstance(s[2], int) and 0 <= s[1] <= s[2] <= arr.shape[k]):
+                raise AnalysisBroken("ndsym: range %r outside axis %d (length %d) of %s" % (s[1:], k, arr.shape[k], arr.name))
+        elif not isinstance(s, int) or s < 0 or s >= arr.shape[k]:
             raise AnalysisBroken("ndsym: view selector %r outside axis %d of %s" % (s, k, arr.name))
-    shape = [arr.shape[k] for k in free]
+    shape = [sels[k][2] - sels[k][1] for k in free]
 
     def fmap(idx, sels=tuple(sels), free=tuple(free)):
         out = list(sels)
         for k, i in zip(free, idx):
-            out[k] = i
+            out[k] = sels[k][1] + i
         return tuple(out)
     return NDView(arr, shape, fmap)
 
